@@ -26,6 +26,7 @@ type Engine struct {
 	used      map[*VC]map[string]bool // spec functions / declarations per VC
 	usedFC    map[string]bool
 	loadS     float64
+	cwCache   map[string][]types.Type
 }
 
 func loadEngine(repo string, patterns []string, specDir string) (*Engine, error) {
@@ -339,4 +340,72 @@ func (vc *VC) stringConst(s string, t types.Type) *SV {
 		}
 	}
 	return &SV{T: t, C: []string{ref, bvLit(64, 0), bvLit(64, int64(len(s)))}}
+}
+
+// closedWorld returns every type that can be the dynamic type of a non-nil value of the interface
+// type t, if that set is closed: t has an unexported method, so only types declared in the method's
+// package (found in its scope; generic ones instantiated with t's type arguments) can implement it.
+// nil if the set is open or unknown.
+func (e *Engine) closedWorld(t types.Type) []types.Type {
+	it, ok := t.Underlying().(*types.Interface)
+	if !ok {
+		return nil
+	}
+	var pkg *types.Package
+	for i := 0; i < it.NumMethods(); i++ {
+		if m := it.Method(i); !m.Exported() {
+			pkg = m.Pkg()
+			break
+		}
+	}
+	if pkg == nil {
+		return nil
+	}
+	key := "cw:" + t.String()
+	if v, ok := e.cwCache[key]; ok {
+		return v
+	}
+	var targs []types.Type
+	if tn, ok := types.Unalias(t).(*types.Named); ok && tn.TypeArgs() != nil {
+		for i := 0; i < tn.TypeArgs().Len(); i++ {
+			targs = append(targs, tn.TypeArgs().At(i))
+		}
+	}
+	var out []types.Type
+	names := pkg.Scope().Names()
+	sort.Strings(names)
+	for _, nm := range names {
+		tn, ok := pkg.Scope().Lookup(nm).(*types.TypeName)
+		if !ok || tn.IsAlias() {
+			continue
+		}
+		named, ok := tn.Type().(*types.Named)
+		if !ok {
+			continue
+		}
+		if _, isI := named.Underlying().(*types.Interface); isI {
+			continue
+		}
+		var cand types.Type = named
+		if named.TypeParams().Len() > 0 {
+			if named.TypeParams().Len() != len(targs) {
+				continue
+			}
+			inst, err := types.Instantiate(nil, named, targs, true)
+			if err != nil {
+				continue
+			}
+			cand = inst
+		}
+		if types.Implements(cand, it) {
+			out = append(out, cand)
+		} else if pt := types.NewPointer(cand); types.Implements(pt, it) {
+			out = append(out, pt)
+		}
+	}
+	if e.cwCache == nil {
+		e.cwCache = map[string][]types.Type{}
+	}
+	e.cwCache[key] = out
+	return out
 }
